@@ -35,7 +35,10 @@ Definition pg_dict := list (pg_key * pg_val).
 
 Inductive pg_cell : Type :=
 | PcObj (v : pg_val)
-| PcStream (d : pg_dict) (data : list N).
+| PcStream (d : pg_dict) (data : list N) (key : N).
+(* key: 0 = the stream has its own data; k > 0 = the data comes from the foreign-stream provider
+   (Streams::Copier), which finds it under the object number k the copy was CREATED with
+   (copied_data / copied_streams are keyed by the destination objgen) *)
 
 Definition pg_store := list (N * pg_cell).
 
@@ -121,7 +124,7 @@ Definition pg_is_null (s : pg_store) (v : pg_val) : bool :=
   end.
 Definition pg_is_stream (s : pg_store) (v : pg_val) : bool :=
   match v with
-  | PvRef i => match pg_lookup s i with Some (PcStream _ _) => true | _ => false end
+  | PvRef i => match pg_lookup s i with Some (PcStream _ _ _) => true | _ => false end
   | _ => false
   end.
 Definition pg_is_dict (s : pg_store) (v : pg_val) : bool :=
@@ -580,7 +583,7 @@ Fixpoint pg_reserve (fuel : nat) (h : pg_val) (top : bool) (c : pg_cst) : pg_cst
                   | None =>
                       let '(d', l) :=
                         if pg_is_stream (pd_store (c_src c)) h
-                        then pg_alloc (c_dst c) (PcStream [] [])
+                        then pg_alloc (c_dst c) (PcStream [] [] 0)
                         else pg_alloc (c_dst c) (PcObj PvNull) in
                       let c := mkPgCst (c_src c) d' ((og, l) :: c_omap c) (c_visiting c) (c_tocopy c) (c_err c) in
                       let '(c, is_page) := if top then (c, false) else pg_src_type_is c h k_Page in
@@ -600,7 +603,7 @@ Fixpoint pg_reserve (fuel : nat) (h : pg_val) (top : bool) (c : pg_cst) : pg_cst
                 match h with
                 | PvRef og =>
                     match pg_lookup ss og with
-                    | Some (PcStream d _) =>
+                    | Some (PcStream d _ _) =>
                         (* reserve_objects(foreign.getDict()): a direct dictionary *)
                         fold_left (fun c kv => if pg_is_null (pd_store (c_src c)) (snd kv) then c else pg_reserve f (snd kv) false c) d c
                     | Some (PcObj (PvArr l)) => fold_left (fun c x => pg_reserve f x false c) l c
@@ -665,10 +668,11 @@ Definition pg_copied (src dst : pg_doc) (fid : N) : pg_doc * pg_doc * option pg_
             | None => (ds, Some PeUnm)
             | Some l =>
               match pg_lookup ss og with
-              | Some (PcStream d data) =>
-                  (* keys are replaced into the (fresh, empty) dictionary of the local stream *)
-                  let d0 := match pg_lookup ds l with Some (PcStream d0 _) => d0 | _ => [] end in
-                  (pg_supd ds l (PcStream (fold_left (fun acc kv => pg_dset acc (fst kv) (snd kv)) (pg_rename_dict ss (c_omap c) d) d0) data), None)
+              | Some (PcStream d data _) =>
+                  (* keys are replaced into the (fresh, empty) dictionary of the local stream; copy_data_to
+                     registers the provider under the local object number *)
+                  let d0 := match pg_lookup ds l with Some (PcStream d0 _ _) => d0 | _ => [] end in
+                  (pg_supd ds l (PcStream (fold_left (fun acc kv => pg_dset acc (fst kv) (snd kv)) (pg_rename_dict ss (c_omap c) d) d0) data l), None)
               | Some (PcObj v) =>
                   (* replaceReserved: the local object must be reserved or null *)
                   if pg_is_null ds (PvRef l)
@@ -743,7 +747,7 @@ Definition pg_insert (w : pg_world) (d : bool) (h : pg_href) (pos : Z) : pg_worl
               match pg_pos_find (pd_pos p) i with
               | Some _ =>
                   match pg_lookup (pd_store p) i with
-                  | Some (PcStream _ _) => (p, Some PeRt, np)
+                  | Some (PcStream _ _ _) => (p, Some PeRt, np)
                   | _ => let '(s, j) := pg_alloc (pd_store p) (PcObj (pg_rv (pd_store p) np)) in
                          (pd_with_store p s, None, PvRef j)
                   end
@@ -885,7 +889,7 @@ Definition pg_step (w : pg_world) (o : pg_op) : pg_world * pg_res :=
       let p := pg_get w d in
       match pg_lookup (pd_store p) i with
       | None => (w, PrErr PeUnm)
-      | Some (PcStream _ _) => (w, PrErr PeRt)
+      | Some (PcStream _ _ _) => (w, PrErr PeRt)
       | Some (PcObj v) => let '(s, j) := pg_alloc (pd_store p) (PcObj v) in (pg_put w d (pd_with_store p s), PrId j)
       end
   | PoCopyForeign d h =>
@@ -923,6 +927,13 @@ Definition pg_step (w : pg_world) (o : pg_op) : pg_world * pg_res :=
   | PoMakeIndirect d v =>
       let p := pg_get w d in
       let '(s, j) := pg_alloc (pd_store p) (PcObj v) in (pg_put w d (pd_with_store p s), PrId j)
+  end.
+
+(* can the data of stream object i be produced? (pipeStreamData asks the provider with the CURRENT objgen) *)
+Definition pg_stream_readable (s : pg_store) (i : N) : bool :=
+  match pg_lookup s i with
+  | Some (PcStream _ _ k) => (k =? 0) || (k =? i)
+  | _ => false
   end.
 
 (* marker (/Mk) of an object, used by observations *)
